@@ -136,17 +136,26 @@ def run_framing(case):
         vl.run(setup())
         vl.settle()
         pos = 0
-        for c in cuts + [len(full)]:
+        eof_now = bool(case.get('eof_now'))     # the peer closes at once: last bytes and EOF become visible in the same loop turn
+        points = cuts + [len(full)]
+        for c in points:
             if c > pos:
                 chunk = full[pos:c]
-                vl.call(face.reader.feed_data, chunk)
+                if eof_now and c == len(full):
+                    def last(chunk=chunk):
+                        face.reader.feed_data(chunk)
+                        face.reader.feed_eof()
+                    vl.call(last)
+                else:
+                    vl.call(face.reader.feed_data, chunk)
                 vl.settle()
                 pos = c
-        if case.get('mid_check', True):
+        if case.get('mid_check', True) and not eof_now:
             # before EOF: everything complete so far has been delivered, nothing else
             if [g[1] for g in got] != pkts:
                 r.bad('C06/framing/delivered-before-eof', f'{len(got)} delivered, expected {len(pkts)}; cuts={cuts[:8]}')
-        vl.call(face.reader.feed_eof)
+        if not (eof_now and full):
+            vl.call(face.reader.feed_eof)
         vl.settle()
         vl.advance(0.01)
         task = holder['task']
@@ -178,7 +187,7 @@ def run_framing(case):
         if any(s < c < e for s, e in spans):
             inside = True
     r.key = ('framing', len(pkts), tuple(sorted({(e - s) for s, e in spans})), bool(tail), min(len(cuts), 5)) if inside else None
-    r.classes = ('framing', 'cut-in-TL' if inside else 'no-cut-in-TL', f'pkts:{len(pkts)}', 'tail' if tail else 'clean-eof')
+    r.classes = ('framing', 'cut-in-TL' if inside else 'no-cut-in-TL', f'pkts:{len(pkts)}', 'tail' if tail else 'clean-eof') + (('eof-same-turn',) if case.get('eof_now') else ())
     return r
 
 
@@ -206,7 +215,7 @@ def _framing_case(draw):
         if draw(st.booleans()):
             cuts.append(off + draw(st.integers(1, 5)))
         off += len(T.enc_num(p[0])) + len(T.enc_num(p[1])) + p[1]
-    return {'pkts': pkts, 'tail': tail.hex(), 'cuts': cuts}
+    return {'pkts': pkts, 'tail': tail.hex(), 'cuts': cuts, 'eof_now': draw(st.integers(0, 3)) == 0}
 
 
 def _framing_enum(tier):
@@ -221,9 +230,11 @@ def _framing_enum(tier):
     for s in streams:
         n = sum(len(T.enc_num(t)) + len(T.enc_num(ln)) + ln for t, ln, _ in s['pkts']) + len(s['tail']) // 2
         yield dict(s, cuts=[])
+        yield dict(s, cuts=[], eof_now=True)
         for c in range(1, n):
             yield dict(s, cuts=[c])
             yield dict(s, cuts=[c, c + 1])
+            yield dict(s, cuts=[c], eof_now=True)
 
 
 # =============================== (b) robustness ==================================================================
@@ -316,6 +327,7 @@ def _robust_case(target):
         'n_pending': st.integers(0, 3), 'n_handlers': st.integers(0, 3),
         'inputs': st.lists(_input_spec(), min_size=1, max_size=6),
         'mode': st.sampled_from(['await', 'task']),
+        'buf': st.sampled_from([0, 0, 1, 2, 3]),     # the face hands packets over as bytes / memoryview / bytearray / writable memoryview
     })
 
 
@@ -352,7 +364,7 @@ def run_robust(case):
             if not target.startswith('udp') and not ok_frame:
                 continue     # a stream face only hands over buffers whose outer type/length is self-consistent
             n_eval += 1
-            stage = _deliver(sim, target, udp, w, case['mode'], r)
+            stage = _deliver(sim, target, udp, w, case['mode'], r, case.get('buf', 0))
             fam = spec['fam'] if spec['fam'] != 'mutated' else 'mut:' + '+'.join(m['k'] for m in spec['muts'])[:40]
             classes.append('framed-ok' if ok_frame else 'framing-broken')
             if ok_frame or spec['fam'] == 'mutated':
@@ -368,14 +380,14 @@ def run_robust(case):
                 if h.done_count:
                     r.bad(f'C06/{target}/bystander-interest-finished-early/{_outcome_label(h)}', f'{nm}')
                     break
-                sim.deliver(net.data_wire(nm, content=b'ok'), 'task')
+                sim.deliver(_in_buf(net.data_wire(nm, content=b'ok'), case.get('buf', 0)), 'task')
                 sim.vl.advance(0.01)
                 if _outcome_label(h) != 'data':
                     r.bad(f'C06/{target}/bystander-interest-broken/{_outcome_label(h)}', f'{nm}')
                     break
             for i in range(case['n_handlers']):
                 before = len(hcalls)
-                sim.deliver(net.interest_wire([KEEP, net.comp(f'h{i}'), net.comp('q')], nonce=3), 'task')
+                sim.deliver(_in_buf(net.interest_wire([KEEP, net.comp(f'h{i}'), net.comp('q')], nonce=3), case.get('buf', 0)), 'task')
                 sim.vl.advance(0.01)
                 if hcalls[before:] != [i]:
                     r.bad(f'C06/{target}/bystander-handler-broken', f'handler {i} calls {hcalls[before:]}')
@@ -396,9 +408,16 @@ def _site(err):
     return (err.get('exc') or '')[:40].replace('/', '_')
 
 
-def _deliver(sim, target, udp, w, mode, r):
+def _in_buf(w, buf):
+    return w if not buf else memoryview(w) if buf == 1 else bytearray(w) if buf == 2 else memoryview(bytearray(w))
+
+
+def _deliver(sim, target, udp, w, mode, r, buf=0):
     """-> stage label"""
     before = len(sim.receive_errors)
+    raw = w
+    if not target.startswith('udp'):
+        w = _in_buf(w, buf)
     if target.startswith('udp'):
         try:
             sim.vl.call(udp.datagram_received, w, ('127.0.0.1', 6363))
@@ -431,7 +450,7 @@ def _deliver(sim, target, udp, w, mode, r):
     sim.vl.settle()
     if len(sim.receive_errors) > before:
         e = sim.receive_errors[before]
-        r.bad(f'C06/{target}/receive-raised/{e.split(":")[0]}', f'{e} input={w.hex()[:160]}')
+        r.bad(f'C06/{target}/receive-raised/{e.split(":")[0]}', f'{e} input={raw.hex()[:160]} buf={buf}')
         return 'raised'
     return 'ok'
 
